@@ -153,7 +153,8 @@ Definition obs_parse_word (input : list Z) : list Z :=
   | None => [0]
   end.
 
-(* tag 11: the recovery protocol: input = meta code, index code, then the crash points of the killed starts;
+(* tag 11: the recovery protocol: input = meta code, index code, then the crash points of the killed starts (-1: a completed start
+   that keeps its index in memory);
    output = metadata current after the kills, index directory present after the kills, then after one completed start:
    answers from the shipped data, metadata current *)
 Definition meta_of_code (c : Z) : meta :=
@@ -169,7 +170,7 @@ Definition obs_dbproto (input : list Z) : list Z :=
   match input with
   | m :: i :: cps =>
       let d0 := {| dmeta := meta_of_code m; dindex := index_of_code i |} in
-      let d1 := fold_left (fun d cp => crash_run (Z.to_nat cp) d) cps d0 in
+      let d1 := fold_left (fun d cp => if Z.eqb cp (-1) then mem_start d (* a start that keeps its index in memory *) else crash_run (Z.to_nat cp) d) cps d0 in
       let d2 := complete d1 in
       [if meta_current d1 then 1 else 0; match dindex d1 with IMissing => 0 | _ => 1 end;
        match answers d2 with Shipped => 1 | _ => 0 end; if meta_current d2 then 1 else 0]
